@@ -192,3 +192,81 @@ Proof.
     + intros w2 x Hw2 Hx. destruct (O2 _ _ Hw2 Hx) as [w1 [Hw1 Hx1]]. eauto.
     + exists (ps1 ++ ps2). rewrite P2, P1, app_assoc. split; [reflexivity|]. rewrite app_length. cbn [length]. lia.
 Qed.
+
+(* ------------------------------------------------------------------ FuseDevWriter::write_all_from and flush
+   (operations of [xfop] outside [afop]): capacity invariant, frame and non-growing windows for mixed runs *)
+Definition keeps (m : mem) (w : fdw) (m' : mem) (w' : fdw) : Prop :=
+  f_inv w' /\ f_base w' = f_base w /\ f_cap w' = f_cap w /\ (forall x, ~ f_owns w x -> mget m' x = mget m x).
+
+Lemma fw_write_from_keeps count src m w : f_inv w ->
+  let '(r, m', w', ps) := fw_write_from count src m w in keeps m w m' w'.
+Proof.
+  intro Hinv. unfold fw_write_from, keeps. destruct (f_check w count) as [r0|] eqn:C; [repeat split; auto|].
+  assert (Hok : count <= f_avail w).
+  { unfold f_check in C. destruct (negb _); [discriminate|]. destruct (N.ltb_spec (f_avail w) count); [discriminate|lia]. }
+  destruct src as [sd|]; [|repeat split; auto]. cbn zeta.
+  set (data := firstn (N.to_nat count) sd).
+  assert (Hd : lenN data <= count) by (subst data; unfold lenN; rewrite firstn_length; lia).
+  unfold f_inv, f_avail, f_owns in *.
+  destruct (f_buffered w); cbn [f_len f_base f_cap]; repeat split; try lia;
+    intros x Hx; apply write_list_frame; lia.
+Qed.
+
+Lemma keeps_trans m w m1 w1 m2 w2 : keeps m w m1 w1 -> keeps m1 w1 m2 w2 -> keeps m w m2 w2.
+Proof.
+  intros [I1 [B1 [C1 F1]]] [I2 [B2 [C2 F2]]]. unfold keeps. repeat split; try congruence.
+  intros x Hx. rewrite F2; [apply F1; exact Hx|]. unfold f_owns in *. rewrite B1, C1. exact Hx.
+Qed.
+
+Lemma fw_write_all_from_loop_keeps fuel : forall count src m w pk, f_inv w ->
+  let '(r, m', w', ps) := fw_write_all_from_loop fuel count src m w pk in keeps m w m' w'.
+Proof.
+  induction fuel as [|f IH]; intros count src m w pk Hinv; cbn [fw_write_all_from_loop].
+  - unfold keeps. repeat split; auto.
+  - destruct (count =? 0); [unfold keeps; repeat split; auto|].
+    pose proof (fw_write_from_keeps count src m w Hinv) as K.
+    destruct (fw_write_from count src m w) as [[[r m1] w1] ps1].
+    destruct r as [n data|e|]; try exact K. destruct n as [|pn]; [exact K|].
+    pose proof K as [I1 _].
+    specialize (IH (count - N.pos pn) (option_map (skipn (N.to_nat (N.pos pn))) src) m1 w1 (pk ++ ps1) I1).
+    destruct (fw_write_all_from_loop f (count - N.pos pn) (option_map (skipn (N.to_nat (N.pos pn))) src) m1 w1 (pk ++ ps1)) as [[[r2 m2] w2] ps2].
+    eapply keeps_trans; eauto.
+Qed.
+
+Definition x_step_post (st st' : fstate) : Prop :=
+  f_wf st' /\
+  (forall x, (forall w, In w (f_ws st) -> ~ f_owns w x) -> mget (f_mem st') x = mget (f_mem st) x) /\
+  (forall w' x, In w' (f_ws st') -> f_owns w' x -> exists w, In w (f_ws st) /\ f_owns w x).
+
+Lemma xfstep_post at_len x st : f_wf st -> x_step_post st (snd (xfstep at_len x st)).
+Proof.
+  intro Hwf. destruct x as [a|i count src|i]; cbn [xfstep].
+  - destruct (afstep_post at_len a st Hwf) as [W [M [O _]]]. unfold x_step_post. auto.
+  - destruct (nth_error (f_ws st) i) as [w|] eqn:E; [|cbn [snd]; unfold x_step_post; repeat split; eauto].
+    assert (Hinv : f_inv w) by (eapply nth_error_Forall; eauto). pose proof (nth_error_In _ _ E) as Hin.
+    assert (K : let '(r, m', w', ps) := fw_write_all_from count src (f_mem st) w in keeps (f_mem st) w m' w').
+    { unfold fw_write_all_from. destruct (f_check w count); [unfold keeps; repeat split; auto|].
+      apply fw_write_all_from_loop_keeps; exact Hinv. }
+    destruct (fw_write_all_from count src (f_mem st) w) as [[[r m'] w'] ps]. cbn [snd].
+    destruct K as [I [B [C F]]]. unfold x_step_post, f_wf. cbn [f_mem f_ws]. split; [apply Forall_set_nth; assumption|]. split.
+    + intros x Hx. apply F. apply Hx. exact Hin.
+    + intros w2 x Hw2 Hx. apply in_set_nth in Hw2. destruct Hw2 as [->|Hw2]; [|eauto].
+      exists w. split; [exact Hin|]. unfold f_owns in *. rewrite <- B, <- C. exact Hx.
+  - destruct (nth_error (f_ws st) i); cbn [snd]; unfold x_step_post; repeat split; eauto.
+Qed.
+
+Lemma xfrun_snd_cons at_len x ops st : snd (xfrun at_len (x :: ops) st) = snd (xfrun at_len ops (snd (xfstep at_len x st))).
+Proof.
+  cbn [xfrun]. destruct (xfstep at_len x st) as [o st1]. cbn [snd]. destruct (xfrun at_len ops st1) as [os st2]. reflexivity.
+Qed.
+
+Theorem xfrun_post at_len ops st : f_wf st -> x_step_post st (snd (xfrun at_len ops st)).
+Proof.
+  revert st; induction ops as [|x ops IH]; intros st Hwf.
+  - cbn [xfrun snd]. unfold x_step_post. repeat split; eauto.
+  - rewrite xfrun_snd_cons. destruct (xfstep_post at_len x st Hwf) as [W1 [M1 O1]].
+    destruct (IH _ W1) as [W2 [M2 O2]]. unfold x_step_post. split; [exact W2|]. split.
+    + intros y Hy. rewrite M2; [apply M1; exact Hy|].
+      intros w1 Hw1 Hown. destruct (O1 _ _ Hw1 Hown) as [w [Hw Hwx]]. exact (Hy w Hw Hwx).
+    + intros w2 y Hw2 Hy. destruct (O2 _ _ Hw2 Hy) as [w1 [Hw1 Hy1]]. eauto.
+Qed.
